@@ -200,7 +200,7 @@ Section OracleIff.
   Qed.
 
   (* the model's own prediction satisfies the property (totality + rejection + post) *)
-  Lemma model_spec tl s : Spec tbl s (obs_of (init (tbl_fun tbl) tl s)).
+  Lemma model_spec rd tl s : Spec tbl s (obs_of rd (init (tbl_fun tbl) tl s)).
   Proof.
     intros Hw. destruct (total (tbl_fun tbl) tl s Hw) as [Hnp Hf].
     destruct (init (tbl_fun tbl) tl s) as [c|e|site] eqn:E; simpl.
@@ -212,8 +212,8 @@ Section OracleIff.
         intros e0 e' Hin [P1 [P2 [P3 [P4 P5]]]]. unfold eobs_ok, eobs_of. simpl. repeat split; auto.
         * apply Forall2_map_r. eapply Forall2_imp; [|exact P5].
           intros b b' Hb. unfold post_backend in Hb. unfold bobs_ok, bobs_of. simpl. tauto.
-        * destruct (factory_new e') as [| |st] eqn:Ef; simpl; try discriminate.
-          exfalso. exact (Hf c eq_refl e' Hin st Ef).
+        * destruct (factory_new rd e') as [| |st] eqn:Ef; simpl; try discriminate.
+          exfalso. exact (Hf c eq_refl rd e' Hin st Ef).
     - repeat split; [discriminate|]. intros es He. discriminate.
     - exfalso. exact (Hnp site eq_refl).
   Qed.
